@@ -22,6 +22,9 @@ func kmaxOf(f family, p map[string]int) int {
 	case "pcons":
 		k = f.kmax/2 + p["nmsg"]*p["parts"] + 2*p["nerr"]
 	case "group":
+		if f.scen == "race" {
+			return 40 // the close is injected by the hook; without the hook at the 40th event
+		}
 		k = f.kmax/2 + 6 + p["nmsg"]*p["np"] + 2*p["nerr"]
 	}
 	return k
@@ -90,6 +93,9 @@ var families = []family{
 	{"group", "silentjoin", 8, func(r *rand.Rand) map[string]int {
 		return map[string]int{"np": 1, "nmsg": 0, "buf": pick(r, 0, 1), "reterr": pick(r, 0, 1), "shared": pick(r, 0, 1)}
 	}},
+	{"group", "race", 0, func(r *rand.Rand) map[string]int {
+		return map[string]int{"np": pick(r, 1, 2), "nmsg": pick(r, 2, 4), "buf": pick(r, 1, 4), "reterr": 1, "shared": pick(r, 0, 1)}
+	}},
 	// offset manager: idle / commit in flight / coordinator failing
 	{"offsets", "idle", 4, func(r *rand.Rand) map[string]int {
 		return map[string]int{"np": pick(r, 1, 2), "buf": pick(r, 0, 1, 4), "reterr": pick(r, 0, 1), "auto": pick(r, 0, 1)}
@@ -157,7 +163,11 @@ func makeSpecs(seed int64, thorough bool, limit int) []Spec {
 	for round := 0; round < rounds; round++ {
 		for _, f := range families {
 			p := f.params(r)
-			for _, k := range ks(kmaxOf(f, p), thorough, r) {
+			kl := ks(kmaxOf(f, p), thorough, r)
+			if f.scen == "race" {
+				kl = []int{40}
+			}
+			for _, k := range kl {
 				syn := false
 				switch f.comp {
 				case "producer", "pcons":
